@@ -260,6 +260,17 @@ def hyp_explore(part, known, strategy, case_fn, n, seed, max_roots=MAX_ROOTS, sh
                 part.violations[key] = jsonable({"detail": detail, "case": case, "gen": label})
             ignored.add(key)
             remaining -= state["count"]
+        except hypothesis.errors.Flaky:
+            # the verdict did not reproduce when Hypothesis replayed the same case: the outcome depends on
+            # process state left by earlier cases (itself reportable: results must not depend on history)
+            if state["last"] is None:
+                raise
+            case, (key, detail) = state["last"]
+            if key not in part.violations:
+                part.violations[key] = jsonable({"detail": detail, "case": case, "gen": label,
+                                                 "note": "history-dependent: did not reproduce on immediate replay of the same case"})
+            ignored.add(key)
+            remaining -= max(1, state["count"])
         except hypothesis.errors.Unsatisfiable as e:  # generator problem
             raise HarnessError(f"generator unsatisfiable in {label}: {e}")
     return part
